@@ -8,7 +8,7 @@ package epic
 //@ func (*Path).DecodeFromBytes
 //@   props C08 C18
 //@   modifies *p
-//@   ensures result == nil ==> len(b) >= 16 && p.ScionPath != nil && len(p.PHVF) == 4 && len(p.LHVF) == 4 && fresh(p.PHVF) && fresh(p.LHVF)
+//@   ensures result == nil ==> len(b) >= 16 && p.ScionPath != nil && fresh(p.ScionPath) && len(p.PHVF) == 4 && len(p.LHVF) == 4 && fresh(p.PHVF) && fresh(p.LHVF)
 //@   ensures result == nil ==> p.PktID.Timestamp == uint32(b[0])<<24|uint32(b[1])<<16|uint32(b[2])<<8|uint32(b[3]) && p.PktID.Counter == uint32(b[4])<<24|uint32(b[5])<<16|uint32(b[6])<<8|uint32(b[7])
 //@   ensures result == nil ==> p.PHVF[0] == b[8] && p.PHVF[1] == b[9] && p.PHVF[2] == b[10] && p.PHVF[3] == b[11] && p.LHVF[0] == b[12] && p.LHVF[1] == b[13] && p.LHVF[2] == b[14] && p.LHVF[3] == b[15]
 //@   ensures result == nil ==> scion.baseOK(p.ScionPath.PathMeta.SegLen[0], p.ScionPath.PathMeta.SegLen[1], p.ScionPath.PathMeta.SegLen[2], p.ScionPath.NumINF, p.ScionPath.NumHops) && len(p.ScionPath.Raw) == 4+p.ScionPath.NumINF*8+p.ScionPath.NumHops*12 && sameArray(p.ScionPath.Raw, b) && p.ScionPath.PathMeta.CurrHF <= 63 && p.ScionPath.PathMeta.CurrINF <= 3 && !sameArray(p.PHVF, b) && !sameArray(p.LHVF, b)
